@@ -211,6 +211,7 @@ class FrameInterp:
                 # a row of the 3x3 identity: the coordinate axis number <index> (same as zeros(3) with a 1 stored at <index>)
                 w = self._track(Vc(eq=False, fresh=True, origin=norm(e)))
                 w.lab_index = e.slice
+                w.lab_measured = self._measured(e.slice)
                 return w
             base = self.ev(e.value)
             if isinstance(base, tuple) and base[0] == "seq" and isinstance(e.slice, ast.Constant):
@@ -403,6 +404,16 @@ class FrameInterp:
         return w
 
     # ---- statements
+    def _measured(self, idx: ast.AST):
+        """the vector whose |components| an index expression ranks (argmin(abs(V))...), as bound right now"""
+        if isinstance(idx, ast.Name) and idx.id in getattr(self, "index_src", {}):
+            return self.index_src[idx.id]
+        for c in ast.walk(idx):
+            if isinstance(c, ast.Call) and call_name(c) in ("abs", "fabs", "absolute") and c.args:
+                v = self.ev(c.args[0])
+                return v if isinstance(v, Vc) else None
+        return None
+
     def run(self) -> FrameResult:
         for ev in self.res.path.events:
             if ev[0] == "c":
@@ -470,6 +481,16 @@ class FrameInterp:
                 return
             if isinstance(t, ast.Name):
                 v = self.ev(st.value)
+                if not isinstance(v, Vc):
+                    # an index computed from the components of a vector: remember which vector, as bound now
+                    if not hasattr(self, "index_src"):
+                        self.index_src = {}
+                    m_ = self._measured(st.value) if any(isinstance(c_, ast.Call) and call_name(c_) in ("abs", "fabs", "absolute")
+                                                         for c_ in ast.walk(st.value)) else None
+                    if m_ is not None:
+                        self.index_src[t.id] = m_
+                    else:
+                        self.index_src.pop(t.id, None)
                 if isinstance(v, tuple) and v[0] == "lit":
                     v = self._lit_vector(v)
                 if isinstance(v, Pt) and not getattr(v, "fresh", False):
@@ -485,6 +506,7 @@ class FrameInterp:
                     if isinstance(st.value, ast.Constant) and isinstance(st.value.value, (int, float)) and st.value.value != 0:
                         if v.zero:
                             v.lab_index = t.slice
+                            v.lab_measured = self._measured(t.slice)
                         v.zero = False
                 return
         if isinstance(st, ast.AugAssign) and isinstance(st.target, ast.Name):
